@@ -33,6 +33,7 @@ import (
 	"context"
 	"encoding/binary"
 	"fmt"
+	"reflect"
 	"sort"
 	"sync"
 	"testing"
@@ -45,6 +46,7 @@ import (
 	"github.com/keep-network/keep-core/pkg/net"
 	"github.com/keep-network/keep-core/pkg/operator"
 	"github.com/keep-network/keep-core/pkg/protocol/group"
+	"github.com/keep-network/keep-core/pkg/protocol/state"
 )
 
 const (
@@ -420,6 +422,95 @@ var ErrNoUnmarshaler = fmt.Errorf("harness: no unmarshaler registered for the me
 type DropError struct{ Err error }
 
 func (d *DropError) Error() string { return "dropped by the decoder: " + d.Err.Error() }
+
+// ---------------------------------------------------------------- observation
+
+// sliceFields returns, for every slice-typed field of the struct st points
+// to, its length and the address of its last element.
+func sliceFields(st interface{}) map[string][2]uintptr {
+	out := map[string][2]uintptr{}
+	v := reflect.ValueOf(st).Elem()
+	for i := 0; i < v.NumField(); i++ {
+		f := v.Field(i)
+		if f.Kind() != reflect.Slice {
+			continue
+		}
+		var last uintptr
+		if n := f.Len(); n > 0 && f.Index(n-1).Kind() == reflect.Ptr {
+			last = f.Index(n - 1).Pointer()
+		}
+		out[v.Type().Field(i).Name] = [2]uintptr{uintptr(f.Len()), last}
+	}
+	return out
+}
+
+// Receiver is the part of state.SyncState / state.AsyncState under test.
+type Receiver interface {
+	Receive(msg net.Message) error
+}
+
+// ObserveSlices calls the real Receive of a state that keeps accepted messages
+// in slice fields and classifies the reaction: "accepted" = exactly one slice
+// field grew by exactly this payload, "ignored" = no slice field changed.
+func ObserveSlices(st Receiver, msg net.Message, payload interface{}) (string, string, error) {
+	before := sliceFields(st)
+	if err := st.Receive(msg); err != nil {
+		return "", "", fmt.Errorf("Receive returned an error: %v", err)
+	}
+	after := sliceFields(st)
+	grown := []string{}
+	for name, a := range after {
+		b := before[name]
+		switch {
+		case a[0] == b[0] && a[1] == b[1]:
+		case a[0] == b[0]+1 && a[1] == reflect.ValueOf(payload).Pointer():
+			grown = append(grown, name)
+		default:
+			return "corrupted", fmt.Sprintf("field %s changed from %v to %v", name, b, a), nil
+		}
+	}
+	switch len(grown) {
+	case 0:
+		return Ignored, "", nil
+	case 1:
+		return Accepted, "stored in " + grown[0], nil
+	}
+	return "corrupted", fmt.Sprintf("stored in several fields %v", grown), nil
+}
+
+// historySize counts the messages of all types in the history of an async state.
+func historySize(base *state.BaseAsyncState) int {
+	n := 0
+	it := reflect.ValueOf(base).Elem().FieldByName("messages").MapRange()
+	for it.Next() {
+		n += it.Value().Len()
+	}
+	return n
+}
+
+// ObserveHistory calls the real Receive of an async state and classifies the
+// reaction by the BaseAsyncState history: "accepted" = the history grew by
+// exactly this message (under its type), "ignored" = the history is unchanged.
+func ObserveHistory(st Receiver, base *state.BaseAsyncState, msg net.Message) (string, string, error) {
+	before := historySize(base)
+	if err := st.Receive(msg); err != nil {
+		return "", "", fmt.Errorf("Receive returned an error: %v", err)
+	}
+	after := historySize(base)
+	stored := false
+	for _, m := range base.GetAllReceivedMessages(msg.Type()) {
+		if m == msg {
+			stored = true
+		}
+	}
+	switch {
+	case after == before && !stored:
+		return Ignored, "", nil
+	case after == before+1 && stored:
+		return Accepted, "stored in the history under " + msg.Type(), nil
+	}
+	return "corrupted", fmt.Sprintf("history size %d -> %d, message stored: %v", before, after, stored), nil
+}
 
 // ---------------------------------------------------------------- replay loop
 
